@@ -285,7 +285,8 @@ def replay_crate():
         shutil.copy(os.path.join(VERIF, "replay", "src", "main.rs"), os.path.join(d, "src", "main.rs"))
     lock = os.path.join(d, "Cargo.lock")
     if not os.path.exists(lock):
-        shutil.copy(os.path.join(REPO, "Cargo.lock"), lock)
+        src = os.path.join(REPO, "Cargo.lock")
+        shutil.copy(src if os.path.exists(src) else "/repo/Cargo.lock", lock)
     return d
 
 
@@ -346,6 +347,28 @@ def known_match(pid, harness, desc):
             continue
         if harness in f.get("harnesses", []) and f.get("check") == desc:
             return f
+    return None
+
+
+def native_search(pid, incrate, n, r, rdir, seed):
+    """The solver's verdict stands; look for a concrete witness of the same failed check by running the
+    harness natively on biased random tapes (see replay/src/main.rs --search). -> (test, details) or None"""
+    p = PROPS[pid]
+    exe, bout = build_replay(pid, incrate, "debug")
+    if not exe:
+        log(f"[{pid}]    replay build failed: {bout[-800:]}")
+        return None
+    os.makedirs(rdir, exist_ok=True)
+    tpath = os.path.join(rdir, n + ".search.tape.json")
+    for d, _ in r["failed"][:3]:
+        rc2, sout, _ = sh([exe, "--search", n, str(p["harnesses"][n].get("search_trials", 400000)), str(seed + 1), tpath, d], timeout=900)
+        log(f"[{pid}]    {sout.strip()[-300:]}")
+        if rc2 == 1:
+            tape = json.load(open(tpath))
+            ok, details = native_replay(pid, incrate, n, tape, rdir)
+            r["replay"].append(dict(check=d, values="found by native search", reproduced=ok))
+            if ok:
+                return (dict(desc=d, values=["(native search) " + sout.strip()[-200:]], tape=tape), details)
     return None
 
 
@@ -430,43 +453,35 @@ def run_property(pid, tier, only=None, seed=0, jobs=None):
         cap = p["harnesses"][n].get("cap", 600)
         # trace generation is usually a little slower than the verification run; when it is much slower it
         # is about to exhaust memory, and the native search below takes over
-        pb_cap = max(180, 3 * (r["time"] or 60) + 60)
-        extra = list(p["harnesses"][n].get("flags", [])) + ["--harness", full, "--exact", "-Z", "concrete-playback", "--concrete-playback=print",
-                 "--harness-timeout", f"{int(pb_cap)}s", "--output-format", "terse"]
-        rc, out, dt = sh(kani_cmd(pid, extra), env=env, cwd=REPO, timeout=pb_cap + 600, mem_gb=mem)
-        open(os.path.join(BUILD, "logs", f"{pid}_{n}_playback.log"), "w").write(out)
-        tests = parse_playback(out)
-        wanted = [d for d, _ in r["failed"]]
-        cands = [t for t in tests if t["desc"] in wanted] or tests
+        pb_cap = max(120, min(900, 1.5 * (r["time"] or 60) + 60))
+        rdir = os.path.join(VERIF, "replays", pid)
         r["replay"] = []
         confirmed = None
-        rdir = os.path.join(VERIF, "replays", pid)
-        for t in cands[:4]:
-            ok, details = native_replay(pid, incrate, n, t["tape"], rdir)
-            r["replay"].append(dict(check=t["desc"], values=t["values"], reproduced=ok))
-            if ok:
-                confirmed = (t, details)
-                break
-            else:
-                log(f"[{pid}]    counterexample for '{t['desc']}' did not reproduce natively ({ok}): {json.dumps(details)[:600]}")
-        if confirmed is None and not tests:
-            # Kani's trace generation did not deliver values (it can exhaust memory on larger harnesses).
-            # The solver's verdict stands; look for a concrete witness by a directed native search.
-            log(f"[{pid}] {n}: no concrete values from Kani's playback (trace generation failed); searching a witness natively")
-            exe, bout = build_replay(pid, incrate, "debug")
-            if exe:
-                os.makedirs(rdir, exist_ok=True)
-                tpath = os.path.join(rdir, n + ".search.tape.json")
-                for d, _ in r["failed"][:3]:
-                    rc2, sout, _ = sh([exe, "--search", n, str(p["harnesses"][n].get("search_trials", 300000)), str(seed + 1), tpath, d], timeout=600)
-                    log(f"[{pid}]    {sout.strip()[-300:]}")
-                    if rc2 == 1:
-                        tape = json.load(open(tpath))
-                        ok, details = native_replay(pid, incrate, n, tape, rdir)
-                        r["replay"].append(dict(check=d, values="found by native search", reproduced=ok))
-                        if ok:
-                            confirmed = (dict(desc=d, values=["(native search) " + sout.strip()[-200:]], tape=tape), details)
-                            break
+        tests = []
+        # harnesses whose verification already took minutes: Kani's trace generation is several times slower
+        # (and often exhausts memory); try the directed native search first
+        search_first = (r["time"] or 0) > 150
+        if search_first:
+            confirmed = native_search(pid, incrate, n, r, rdir, seed)
+        if confirmed is None:
+            extra = list(p["harnesses"][n].get("flags", [])) + ["--harness", full, "--exact", "-Z", "concrete-playback", "--concrete-playback=print",
+                     "--harness-timeout", f"{int(pb_cap)}s", "--output-format", "terse"]
+            rc, out, dt = sh(kani_cmd(pid, extra), env=env, cwd=REPO, timeout=pb_cap + 600, mem_gb=mem)
+            open(os.path.join(BUILD, "logs", f"{pid}_{n}_playback.log"), "w").write(out)
+            tests = parse_playback(out)
+            wanted = [d for d, _ in r["failed"]]
+            cands = [t for t in tests if t["desc"] in wanted] or tests
+            for t in cands[:4]:
+                ok, details = native_replay(pid, incrate, n, t["tape"], rdir)
+                r["replay"].append(dict(check=t["desc"], values=t["values"], reproduced=ok))
+                if ok:
+                    confirmed = (t, details)
+                    break
+                else:
+                    log(f"[{pid}]    counterexample for '{t['desc']}' did not reproduce natively ({ok}): {json.dumps(details)[:600]}")
+        if confirmed is None and not search_first:
+            log(f"[{pid}] {n}: no reproducing values from Kani's playback; searching a witness natively")
+            confirmed = native_search(pid, incrate, n, r, rdir, seed)
         if confirmed is None:
             log(f"[{pid}] {n}: counterexample could NOT be reproduced natively -> encoding problem, inconclusive")
             r["verdict"], r["note"] = "inconclusive", "counterexample does not reproduce natively"
